@@ -208,7 +208,7 @@ def _setup_pileup(fn_name):
         st = St()
         st.n, st.size = z3.Int("n_intervals"), z3.Int("chromosome_size")
         st.s0, st.e0 = z3.Function("start", z3.IntSort(), z3.IntSort()), z3.Function("stop", z3.IntSort(), z3.IntSort())
-        st.cols = {"chromosome": Opaque("chromosome"), "start": SArr.fresh(st.n, lambda i: st.s0(I(i))), "stop": SArr.fresh(st.n, lambda i: st.e0(I(i)))}
+        st.cols = {"chromosome": SArr.fresh(st.n, lambda i: 0), "start": SArr.fresh(st.n, lambda i: st.s0(I(i))), "stop": SArr.fresh(st.n, lambda i: st.e0(I(i)))}
         st.table = STable(st.cols, st.n)
         st.args = [st.table, st.size]
         st.seen = None
